@@ -336,11 +336,11 @@ def finish(mod, ctx, wall):
     mons = ", ".join(f"{k}={v}" for k, v in sorted(ctx.monitors.items()))
     print(f"{prop} {ctx.tier} seed={ctx.seed}: {verdict}; cases={ctx.evaluations} distinct_nontrivial={len(ctx.distinct) + ctx.distinct_n} "
           f"wall={wall:.1f}s monitors: {mons}")
+    for r in ctx.inconclusive_reasons[:5]:
+        print(f"INCONCLUSIVE property={prop} reason={r}")
     if new:
         return 1
     if ctx.inconclusive_reasons:
-        for r in ctx.inconclusive_reasons[:5]:
-            print(f"INCONCLUSIVE property={prop} reason={r}")
         return 2
     return 0
 
